@@ -265,13 +265,8 @@ fn seek_program(db: &DB, keys: &[Vec<u8>], ex: &Explainer, what: &str, sig: &str
             Err(_) => return None,
         };
         for t in &targets {
-            if it.status().is_some() {
-                // an iterator that reported an error is finished; take a new one
-                it = match db.new_iterator(ReadOptions { fill_cache: fill_cache(), snapshot: None }) {
-                    Ok(it) => it,
-                    Err(_) => return None,
-                };
-            }
+            // the same iterator is used again after it reported an error: a new positioning call
+            // starts afresh and must be right or report again
             if it.seek(t).is_err() {
                 continue;
             }
